@@ -78,7 +78,7 @@ func (e *env) prototypes(c *config.Configuration) {
 
 	// ---- (1) determinism: random configurations -------------------------------------------------
 	rng := e.r.Stream("det-configs")
-	n := e.r.Pick(8, 40)
+	n := e.r.Pick(8, 100)
 	for i := 0; i < n; i++ {
 		nh, nv, na := 3+rng.IntN(4), 3+rng.IntN(4), 3+rng.IntN(4)
 		attrs := randAttrs(rng, na)
@@ -257,7 +257,7 @@ func hdr(kv ...string) map[string]string {
 
 func (e *env) pairs() {
 	rng := e.r.Stream("pairs")
-	reps := e.r.Pick(5, 25)
+	reps := e.r.Pick(5, 60)
 	var all []pairCase
 	add := func(mechanism, component, class string, a, b mstep) {
 		all = append(all, pairCase{Mechanism: mechanism, Component: component, Class: class, A: a, B: b})
